@@ -202,6 +202,7 @@ package runtime
 //@   assume entry: watchModeCache != nil
 //@   modifies failedDuring
 //@   ensures !held(watchStateMutex)
+//@   ensures implies(result1 == nil, failedDuring == old(failedDuring)) && implies(result1 != nil, failedDuring) && implies(old(failedDuring), failedDuring)
 
 // cacheStrings is only called with the mutex held
 //@ func cacheStrings [C14]
@@ -209,3 +210,4 @@ package runtime
 //@   assume entry: watchModeCache != nil
 //@   modifies failedDuring
 //@   ensures held(watchStateMutex)
+//@   ensures implies(result1 == nil, failedDuring == old(failedDuring)) && implies(result1 != nil, failedDuring) && implies(old(failedDuring), failedDuring)
